@@ -40,7 +40,7 @@ def plan(tier, seed):
     q = tier == 'quick'
     specs = []
     for i in range(8 if q else 14):
-        specs.append({'kind': 'docs', 'shard': i, 'n': 40 if q else 1400, 'cext': 'plain'})
+        specs.append({'kind': 'docs', 'shard': i, 'n': 40 if q else 800, 'cext': 'plain'})
     for i in range(3 if q else 6):
         specs.append({'kind': 'defects', 'shard': i, 'n': 60 if q else 1500, 'cext': 'plain'})
     for i in range(4 if q else 8):
